@@ -47,6 +47,13 @@ def produce(tier, seed, which):
     jobs = []
     for i, f in enumerate(files):
         jobs.append(("pb", exes[0], f, ["--pb", str(pb), "--max-exec", "6000" if tier == "quick" else "60000"], "pb_%d" % i))
+    # the same bounded search with every protected-field access a scheduling point, on the scenarios with
+    # in-place edits (a reader overlapping a half-done edit of a key array / child count: seed c09d)
+    fscs = [s for s in scs if scenarios.fine_grained(s)] if tier == "quick" else scs
+    fd = os.path.join(d, "fine")
+    os.makedirs(fd, exist_ok=True)
+    for i, f in enumerate(scenarios.write_chunks(fscs, fd, 2 * vlib.NCPU)):
+        jobs.append(("pb_fine", exes[0], f, ["--pb", "2", "--fine", "--max-exec", "4000" if tier == "quick" else "40000"], "pf_%d" % i))
     # random schedules: dbg build at field granularity, ASan build at segment granularity
     rn = 150 if tier == "quick" else 3000
     for i, f in enumerate(files):
@@ -219,15 +226,20 @@ def run(prop, tier, seed):
     t0 = time.time()
     rep = vlib.Report(prop)
     which = ["scan"] if prop == "C09" else ["point"] if prop == "C03" else ["point", "scan"]
+    phases = {}
     cov = validate_runs(prop, tier, seed, rep, which)
+    phases["drivers_and_trace_validation"] = round(time.time() - t0, 1)
     if prop in ("C03", "C04", "C14", "C09"):
         # the design-level model: exhaustive TLC per scenario, protection flags, killer schedules
         import olcart
-        gen_n, dist, names = olcart.model_check(tier, scans=(prop == "C09"))
-        kill = olcart.killers()
-        cov["states"] += dist
-        cov["transitions"] += gen_n
-        cov["olcart_model"] = {"scenarios_checked_exhaustively": names, "distinct_states": dist, "generated_states": gen_n,
+        t1 = time.time()
+        (gen_n, dist, names, kill), reused = olcart.model_check_cached(tier, scans=(prop == "C09"))
+        phases["olcart_exhaustive_and_killers"] = round(time.time() - t1, 1)
+        if not reused:
+            cov["states"] += dist
+            cov["transitions"] += gen_n
+        cov["olcart_model"] = {"tlc_run_reused_from_sibling_check_on_identical_spec_and_catalogue": reused,
+                               "scenarios_checked_exhaustively": names, "distinct_states": dist, "generated_states": gen_n,
                                "module": "OlcArtIter (iterator and scan protocol on top of OlcArt)" if prop == "C09" else "OlcArt",
                                "invariants": "NoBadOutcome(Linearizable, NoUseAfterFree, ScanBounded, ScanOrdered, ScanValueWasHeld, ScanComplete) OneWriterPerNode NoLockHeldAtReturn NoOrphanLock SpinnersHoldNothing FinalTreeIsMap NoReachableRetired NothingLeaked ShapeOK + deadlock",
                                "protection_flags": {f: ({"refuted_by_TLC": True, "clause": k["clause"] or k["violation"], "killer_schedule": k["schedule"]}
@@ -240,8 +252,32 @@ def run(prop, tier, seed):
             os.makedirs(d)
             exe = vlib.build("olc_driver", ["olc_driver.cpp"], "dbg")
             # NDEBUG build: assertion-enabled builds add field reads made by assertions
+            t1 = time.time()
             n_sig, mism = olcart.signature_conformance(vlib.build("olc_driver", ["olc_driver.cpp"], "ndebug"), d)
+            phases["signature_conformance"] = round(time.time() - t1, 1)
+            t1 = time.time()
             cov["olcart_model"]["signature_conformance"] = {"operations_compared": n_sig, "step_structure_mismatches": mism}
+            if prop in ("C03", "C09"):
+                # spec -> code: contended behaviours of OlcArt / OlcArtIter forced on the real code step by step
+                beh, bfiles = olcart.behaviour_replay(vlib.build("olc_driver", ["olc_driver.cpp"], "ndebug"), d, tier,
+                                                      scans=(prop == "C09"))
+                cov["olcart_model"]["behaviour_replay"] = beh
+                cov["states"] += beh["tlc_distinct"]
+                cov["transitions"] += beh["tlc_generated"]
+                for n, rej, st, sk in vlib.parallel_map(lambda bf: validate_file(bf, prop, d), bfiles, workers=vlib.NCPU):
+                    cov["traces_validated_against_impl"] += n
+                    cov["states"] += st
+                    for e, idx in rej:
+                        hdr = json.loads(e[0])
+                        ev = e[idx].strip() if 0 <= idx < len(e) else "<end>"
+                        os.makedirs(vlib.REPLAYS, exist_ok=True)
+                        keep = os.path.join(vlib.REPLAYS, "%s_behaviour_%s.ndjson" % (prop, hdr.get("scenario", "x")))
+                        with open(keep, "w") as fh:
+                            fh.writelines(e)
+                        rep.violation("behaviour of OlcArt replayed on the real code, scenario %s schedule '%s': OlcTrace cannot explain event %d: %s"
+                                      % (hdr.get("scenario"), hdr.get("sched"), idx + 1, ev[:500]),
+                                      {"scenario": hdr.get("scenario"), "trace": keep, "schedule": hdr.get("sched")})
+            phases["behaviour_replay"] = round(time.time() - t1, 1)
             for flag, evf in olcart.replay_killers(kill, exe, d):
                 n, rej, st, sk = validate_file(evf, prop, d)
                 cov["traces_validated_against_impl"] += n
@@ -256,6 +292,7 @@ def run(prop, tier, seed):
                                   % (flag, hdr.get("sched"), idx + 1, ev[:500]), {"flag": flag, "trace": keep, "schedule": hdr.get("sched")})
             shutil.rmtree(d, ignore_errors=True)
         shutil.rmtree(olcart.GEN, ignore_errors=True)
+    cov["phase_seconds"] = phases
     rc = rep.finish()
     vlib.write_evidence(prop, tier, seed, "model_checking", cov,
                         vlib.ASSUME_COMMON + ["preemption bound and scenario catalogue as listed; protected-field segments are atomic in the bounded search (field-granular in the random runs)",
